@@ -37,7 +37,9 @@ def _alphabets(tier):
 def _space(tier):
     full, small = _alphabets(tier)
     if tier == "quick":
-        yield from A.ir_space(full, small, 3, headers=A.HEADERS)
+        # I(1) x every return kind under the one-line summary, x the plain return under the other summaries (thorough: the full product)
+        yield from A.ir_space(full, small, 3, headers=A.HEADERS[:1])
+        yield from A.ir_space(full, [], 1, returns_1=A.RETURNS[1:2], headers=A.HEADERS[1:], alt_names=())
         yield from A.ir_space(A.sigma_param(docs=A.DOCS_BASIC), [], 1, returns_1=A.RETURNS[:2], names1=NAMES1[1:])
     else:
         yield from A.ir_space(full, small, 3, headers=A.HEADERS, returns_n=A.RETURNS[:3])
